@@ -58,6 +58,10 @@ func ensureAccumulator(pk *gabikeys.PublicKey, witness *revocation.Witness) erro
 	if witness == nil || witness.SignedAccumulator == nil {
 		return errors.New("nonrevocation witness has no accumulator")
 	}
+	// (under the lock that also guards the creation of the cache: several proofs may be started
+	// concurrently on a credential that was just read from storage)
+	nonrevCacheInit.Lock()
+	defer nonrevCacheInit.Unlock()
 	if witness.SignedAccumulator.Accumulator != nil {
 		return nil
 	}
